@@ -649,7 +649,12 @@ def case_setters(c):
             viol.append({'cls': 'setter-history-changes-filled-spectrum',
                          'what': f'{what}: interpolate differs from a fresh '
                                  'Fourier with the same settings'})
-        if not np.array_equal(ta, tb):
+        # equal to rounding (1e-12 of the largest value): live and fresh
+        # objects hold the same frequencies, filled spectrum and transform
+        # arguments, but the transform of the reference modeller is not
+        # reproducible to the last bit between two filter instances
+        sc = max(float(np.abs(tb).max()), 1e-300)
+        if ta.shape != tb.shape or not np.abs(ta - tb).max() <= 1e-12*sc:
             same = False
             live = {k: v for k, v in F.ftarg.items() if k in ('kind', 'mu')}
             fresh = {k: v for k, v in G.ftarg.items() if k in ('kind', 'mu')}
